@@ -20,6 +20,10 @@ RULE = (
     'seq: sequences of 1..10 grammar tokens of every kind rendered with unambiguous separators; oracle = exact '
     'kinds and values come back. errpos: one bad token planted in a well-formed sheet parsed by a raising parser; '
     'oracle = exception line/col/message point at an offset where the reported value starts. '
+    'runs: every one of 22 openers (comment, string, url(, backslash, @, #, u+, number, CDO start ...) followed by a run of 40 / 400 / '
+    '4000 (thorough 20000) copies of one of 21 characters or escapes and one of 7 tails: same tiling oracle, and the runner kills a '
+    'worker that is still computing on one case after 20 s of CPU time (hang:cpu-bound) - regular-expression backtracking is the '
+    'only way this tokenizer can fail to terminate. '
     'complete: a prefix, then an unterminated url( (13 spellings incl. hex and simple escapes of u/r/l, optional white space, bare / '
     'quoted / quoted-and-closed content), string or comment at the end of the text, full-sheet mode; oracle = same token kinds, '
     'values and positions as for the explicitly terminated text, exactly one EOF. '
@@ -647,7 +651,35 @@ def check_complete(case, ctx):
     ctx.case(text, '\\' in open_ or bool(case['ws']) or '\n' in text, {'text': text, 'last': list(got[-2][:2])})
 
 
+# ---------------------------------------------------------------------------
+# long runs of one character class after every opener: the tokenizer must stay (about) linear
+
+OPENERS = ['', '/*', '"', "'", 'url(', 'url("', "url('", '\\', '@', '#', '.', '-', 'u+', '<!-', '1', '1e', 'a', '\\41', '!', 'U+1', '*/', '/']
+RUNCHARS = ['*', '/', 'a', '1', '\\', ' ', '\n', '"', "'", '-', '.', '?', 'f', '\\a ', '\\\n', 'é', '(', ')', '+', '%', '\r']
+TAILS = ['', ' x', '/', '*/', '"', ')', '\n']
+
+
+def runs_cases(tier):
+    sizes = [40, 400, 4000] if tier == 'quick' else [40, 100, 400, 2000, 20000]
+    for oi, o in enumerate(OPENERS):
+        for ci, c in enumerate(RUNCHARS):
+            for ti, t in enumerate(TAILS):
+                if tier == 'quick' and (oi + ci + ti) % 3:
+                    continue
+                for n in sizes:
+                    yield {'opener': o, 'char': c, 'n': n, 'tail': t, 'fullsheet': bool((oi + ci + n) & 1)}
+
+
+def check_runs(case, ctx):
+    text = case['opener'] + case['char'] * case['n'] + case['tail']
+    # same oracle as tiling; the hang watchdog of the runner bounds the time of one case
+    check_tiling({'text': text, 'fullsheet': case['fullsheet']}, _NullCtx())
+    ctx.event('runs:n=%d' % case['n'])
+    ctx.case([case['opener'], case['char'], case['n'], case['tail'], case['fullsheet']], case['n'] >= 400, None)
+
+
 SUBS = [
+    Sub('runs', check_runs, enumerate=runs_cases, shards_quick=8, shards_thorough=16, budget_quick=120, budget_thorough=3000),
     Sub('complete', check_complete, strategy=complete_strategy, quick=4000, thorough=200000, shards_quick=4),
     Sub('tiling', check_tiling, strategy=tiling_strategy, quick=40000, thorough=2400000, shards_quick=8),
     Sub('firstchar', check_firstchar, enumerate=firstchar_cases, shards_quick=4),
